@@ -70,7 +70,110 @@ if stored_some == 0:
     ck.inconclusive.append('vacuous: no path stores a non-zero element')
 ck.sample({'obligation': 'S1', 'dimension_max': DIM, 'paths_with_stored_elements': stored_some})
 
-for v in ck.violations:
+# ------------------------------------------------------------------ Q1: the exhaustive search of a named collection - structure only
+# VectorEngine::search_in_collection from vector_engine's MIR.  The store yields 2 keys whose vectors have concrete lengths (the
+# query's or another) and symbolic contents; compute_score is a stub returning an arbitrary non-NaN score per vector (the arithmetic of
+# the metrics is NOT decided); the collection's configured dimension is absent or symbolic; top_k symbolic; no cached index.
+from mirsym.models import some, none, ok as _ok, err as _err, deref
+exv = ck.executor('vector_engine', unroll=24, default_maxlen=1, max_paths=20000)
+PV = exv.prog
+QN = 2
+LENS = [(2, 3), (3, 2), (2, 2), (3, 3)] + ([(2, 2, 2), (2, 3, 2), (3, 2, 2)] if T != 'quick' else [])
+ck.bounds['collection search'] = f'query of {QN} elements, stored vectors of lengths {LENS} (contents and scores symbolic), configured dimension None or symbolic, top_k symbolic u64, no cached index'
+ck.assumptions += ['Q1: compute_score is an arbitrary non-NaN f32 per stored vector (metric arithmetic not decided); the search deadline never expires; slice::sort_by is a stable insertion sort calling the closure',
+                   'Q1: NOT decided: scores themselves, the cached-index path, metadata filters, the default collection']
+ck.declare('Q1_collection_search_filters_orders_and_bounds', f'search_in_collection on {len(LENS)} stored-length patterns x configured dimension None / symbolic, top_k symbolic',
+           'Ok => every hit is a stored vector of the query\'s dimension with the score computed for it, no key twice, hits ordered best first, exactly min(top_k, matching vectors) hits and none of the '
+           'dropped ones beats a kept one; Err only for top_k = 0 or a configured dimension different from the query\'s')
+
+
+def _fl(name):
+    return Flt(z3.FP(name, z3.Float32()))
+
+
+def _ov_scan(c):
+    return Seq('std::string::String', [Str(text=f'coll:c:emb:k{i}') for i in range(len(c.st.env['lens']))])
+
+
+def _ov_get(c):
+    i = int(deref(c.st, c.args[1]).text[-1])
+    vec = Enum('TensorValue', PV.variant_index('TensorValue', 'Vector'), {('Vector', 0): Seq('f32', [_fl(f'v{i}[{j}]') for j in range(c.st.env['lens'][i])])}, variant='Vector')
+    return _ok(Struct('TensorData', {'f': Map('std::string::String', 'TensorValue', [Str(text='vector')], [vec])}), 'Result<TensorData, TensorStoreError>')
+
+
+def _ov_td_get(c):
+    from mirsym.exec import TypedPtr
+    from mirsym.models_iter import map_find
+    m = deref(c.st, c.args[0]).fields['f']
+    i = map_find(c.st, m, c.args[1], 'tensor.get')
+    return none('Option<&TensorValue>') if i is None else some(TypedPtr(m, i, 'TensorValue'), 'Option<&TensorValue>')
+
+
+def _ov_score(c):
+    v = deref(c.st, c.args[1])
+    first = str(v.items(c.st)[0].v).strip('|')            # v<i>[0]
+    i = int(first[1:first.index('[')])
+    sc = z3.FP(f'score{i}', z3.Float32())
+    c.st.assume(z3.Not(z3.fpIsNaN(sc)))
+    c.st.notes.append(('scored', i, v.length(c.st)))
+    return Flt(sc)
+
+
+exv.extra_models.update({
+    'Deadline::from_duration': lambda c: Opaque('Deadline'), 'Deadline::is_expired': lambda c: z3.BoolVal(False),
+    'VectorEngine::collection_embedding_prefix': lambda c: Str(text='coll:c:emb:'), 'VectorEngine::magnitude': lambda c: _fl('qmag'),
+    'TensorStore::scan': _ov_scan, 'TensorStore::get': _ov_get, 'TensorData::get': _ov_td_get, 'VectorEngine::compute_score': _ov_score,
+})
+q1_ok = 0
+for lens, dimkind in [(l, d) for l in LENS for d in ('none', 'some')]:
+    st = exv.new_state()
+    st.env['lens'] = lens
+    cfgdim, top_k = z3.BitVec('cfgdim', 64), z3.BitVec('top_k', 64)
+    cfg = Struct('VectorCollectionConfig', {PV.field('VectorCollectionConfig', 'dimension'): none('Option<usize>') if dimkind == 'none' else some(Int(cfgdim, False), 'Option<usize>'),
+                                            PV.field('VectorCollectionConfig', 'distance_metric'): Enum('DistanceMetric', PV.variant_index('DistanceMetric', 'DotProduct'), {}, variant='DotProduct'),
+                                            PV.field('VectorCollectionConfig', 'auto_index'): z3.BoolVal(False), PV.field('VectorCollectionConfig', 'auto_index_threshold'): Int(z3.BitVecVal(0, 64), False)})
+    lock = lambda m_: Ptr(Cell(val=Struct('RwLock', {'data': Cell(val=m_)})), 0)
+    eng = Struct('VectorEngine', {PV.field('VectorEngine', 'collections'): lock(Map('std::string::String', 'VectorCollectionConfig', [Str(text='c')], [cfg])),
+                                  PV.field('VectorEngine', 'hnsw_cache'): lock(Map('std::string::String', 'HnswCacheEntry', [], []))}, lazy='VE')
+    st.frames = []
+    exv.call(st, 'VectorEngine::search_in_collection', [ref(eng), Str(text='c'), ref(Seq('f32', [_fl(f'q[{i}]') for i in range(QN)])), Int(top_k, False)])
+    res = exv.run(st)
+    ck.note_path_problem(res, f'search_in_collection lens={lens} dim={dimkind}')
+    same = [i for i, n in enumerate(lens) if n == QN]
+    for r in res:
+        wit = lambda m, lens=lens, dimkind=dimkind: {'op': 'collection_search', 'lens': list(lens), 'query_len': QN, 'cfg_dim': None if dimkind == 'none' else mval(m, cfgdim), 'top_k': mval(m, top_k)}
+        if r.status == 'panic':
+            ck.require(exv, 'Q1_collection_search_filters_orders_and_bounds', r.pc, None, z3.BoolVal(False), wit, lambda m, w: 'collection-search-panic')
+            continue
+        if r.status != 'return':
+            continue
+        if r.retval.variant != 'Ok':
+            ok_err = z3.Or(top_k == 0, z3.BoolVal(dimkind == 'some') if dimkind == 'none' else cfgdim != QN)
+            ck.require(exv, 'Q1_collection_search_filters_orders_and_bounds', r.pc, None, ok_err, wit, lambda m, w: 'collection-search-refused')
+            continue
+        q1_ok += 1
+        hits = r.retval.fields[('Ok', 0)].items(r.st)
+        keys = [h.load(PV.field('SearchResult', 'key'), None, r.st) for h in hits]
+        scores = [h.load(PV.field('SearchResult', 'score'), None, r.st).v for h in hits]
+        idx = [int(k.text[-1]) if getattr(k, 'text', None) and k.text[-1].isdigit() else None for k in keys]
+        cs = [z3.BoolVal(all(i is not None and lens[i] == QN for i in idx) and len(set(idx)) == len(idx))]
+        cs += [sc == z3.FP(f'score{i}', z3.Float32()) for sc, i in zip(scores, idx) if i is not None]
+        cs += [z3.Not(z3.fpLT(a, b)) for a, b in zip(scores, scores[1:])]
+        cnt = z3.BitVecVal(len(same), 64)
+        cs.append(z3.BitVecVal(len(hits), 64) == z3.If(z3.ULT(top_k, cnt), top_k, cnt))
+        for i in same:
+            if i not in idx:
+                cs += [z3.Not(z3.fpGT(z3.FP(f'score{i}', z3.Float32()), sc)) for sc in scores]
+        ck.require(exv, 'Q1_collection_search_filters_orders_and_bounds', r.pc, None, z3.And(cs), wit, lambda m, w: 'collection-search-wrong-hits')
+if q1_ok == 0:
+    ck.inconclusive.append('Q1 vacuous: search_in_collection never returned hits')
+ck.functions += ['VectorEngine::search_in_collection', 'VectorEngine::extract_vector']
+
+for v in [v for v in ck.violations if v['witness'].get('op') == 'collection_search']:
+    rep = Replay.call({**v['witness'], 'op': 'vector_collection_search'})
+    v['native'] = rep
+    v['replayed'] = rep.get('violates')
+for v in [v for v in ck.violations if 'dense_bits' in v['witness']]:
     rep = Replay.call({'op': 'sparse_roundtrip', 'bits': [int(x, 16) for x in v['witness'].get('dense_bits', [])]})
     v['native'] = rep
     v['replayed'] = rep.get('violates')
